@@ -421,6 +421,8 @@ class Buffer(gpp.UGenParameter, gpp.NodeParameter):
         previously created with ``alloc=False``.
         '''
 
+        if self._bufnum is None:
+            raise BufferAlreadyFreed('alloc')
         self._server.addr.send_msg(
             '/b_alloc', self._bufnum, self._frames,
             self._channels, fn.value(completion_msg, self))
@@ -432,6 +434,8 @@ class Buffer(gpp.UGenParameter, gpp.NodeParameter):
         with ``alloc=False``.
         '''
 
+        if self._bufnum is None:
+            raise BufferAlreadyFreed('alloc_read')
         self._path = path
         self._start_frame = start_frame
         self._server.addr.send_msg(
@@ -445,6 +449,8 @@ class Buffer(gpp.UGenParameter, gpp.NodeParameter):
         with ``alloc=False``.
         '''
 
+        if self._bufnum is None:
+            raise BufferAlreadyFreed('alloc_read_channel')
         self._path = path
         self._start_frame = start_frame
         self._server.addr.send_msg(
@@ -482,6 +488,8 @@ class Buffer(gpp.UGenParameter, gpp.NodeParameter):
             be passed this Buffer as an argument.
         '''
 
+        if self._bufnum is None:
+            raise BufferAlreadyFreed('read')
         self._path = path
         self._do_on_info = action  # Will not evaluate if cache=False.
         self._server.addr.send_msg(
@@ -495,6 +503,8 @@ class Buffer(gpp.UGenParameter, gpp.NodeParameter):
         As ``read`` but allows to specify which channels to read in a list.
         '''
 
+        if self._bufnum is None:
+            raise BufferAlreadyFreed('read_channel')
         self._path = path
         self._do_on_info = action  # Will not evaluate if cache=False.
         self._server.addr.send_msg(
@@ -520,6 +530,8 @@ class Buffer(gpp.UGenParameter, gpp.NodeParameter):
             evaluated with the initialized buffer object as argument.
         '''
 
+        if self._bufnum is None:
+            raise BufferAlreadyFreed('cue')
         self._path = path
         self._server.addr.send_msg(
             '/b_read', self._bufnum, path, start_frame, self._frames, 0,
@@ -680,6 +692,8 @@ class Buffer(gpp.UGenParameter, gpp.NodeParameter):
             updated. The function will evaluated with the buffer object as
             argument.
         '''
+        if self._bufnum is None:
+            raise BufferAlreadyFreed('update_info')
         # // Add to the array here. That way, update will
         # // be accurate even if this buf has been freed.
         self._cache()
@@ -941,6 +955,8 @@ class Buffer(gpp.UGenParameter, gpp.NodeParameter):
                   num_samples=-1, action=None):
         if self._bufnum is None:
             raise BufferAlreadyFreed('copy_data')
+        if dst_buffer.bufnum is None:
+            raise BufferAlreadyFreed('copy_data (destination)')
 
         if action is not None:
             def resp_func(msg, *_):
@@ -1060,6 +1076,8 @@ class Buffer(gpp.UGenParameter, gpp.NodeParameter):
     ### Node parameter interface ###
 
     def _as_control_input(self):
+        if self._bufnum is None:
+            raise BufferAlreadyFreed('_as_control_input')
         return self.bufnum
 
 
